@@ -105,5 +105,5 @@ def plan(plan, tier, seed):
         "`#[cfg(..)]` attributes inside the match_expression guard are evaluated for the default feature set read from src/interpreter/Cargo.toml (closure of `default`); the pattern matcher reads and extends the environment it is given, 'matches' in the property = matches in a fresh environment",
     ]
     plan.assumptions += ["match_expression arm loop: pattern_matches_value_with_semantics, guard_expression_true, expression, match_validate_arm_kinds are arbitrary functions (contracts/C16/matchmodel.rs); `detached_source` / `base_env` (computed above the loop) are parameters; nothing is claimed when the option/matrix coalescing case applies to the selected arm, nor when the guard of an earlier NON-matching arm fails to evaluate (the code evaluates such guards and reports their failure; the property is silent)"]
-    plan.undecided_clauses += ["C16: of match *expressions*: the statements above the arm loop (source evaluation, the Empty / wildcard pre-check), the option/matrix coalescing case, match_validate_arm_kinds and infer_missing_enum_match_patterns themselves; termination of a recursion, non-tail recursion (through expression evaluation), the exhaustiveness pre-check of execute_function_match_arms, pattern_matches_value's tuple-struct and literal-comparison arms, matrix_like_values / capture_middle_matrix"]
+    plan.undecided_clauses += ["C16: of match *expressions*: the statements above the arm loop (source evaluation, the Empty / wildcard pre-check), the option/matrix coalescing case, match_validate_arm_kinds and infer_missing_enum_match_patterns themselves; termination of a recursion, non-tail recursion (through expression evaluation), the exhaustiveness pre-check of execute_function_match_arms, the dispatch of pattern_matches_value_with_semantics over the pattern kinds (each arm is under contract on its own), values_match / matrix_like_values / capture_middle_matrix"]
     plan.level = "proof"
